@@ -136,7 +136,15 @@ class Comment(Statement):
         self.lines = lines
 
     def write(self, scope: VhdlScope):
-        return TextBlock([f"-- {line}" for line in self.lines])
+        # a comment ends at the end of the line, embedded line breaks
+        # start a new comment line
+        return TextBlock(
+            [
+                f"-- {part}"
+                for line in self.lines
+                for part in (str(line).splitlines() or [""])
+            ]
+        )
 
 
 class Boolean(Expression):
